@@ -69,7 +69,8 @@ kf("KF-shift-loop-alloc-type", ["C01", "C04"],
 kf("KF-divide-recompute-zero-outer", ["C01", "C04"],
    "divide_with_recompute accepts an outer extent that can be 0 (or a loop with non-zero lower bound), so the body is never executed / the new loop has hi < lo",
    "LoopIR_scheduling.DoDivideWithRecompute (only checks outer_hi*stride <= hi)",
-   {"op": ["divide_with_recompute"], "kind": ["value-mismatch", "neg_loop", "uninit"]},
+   {"op": ["divide_with_recompute"], "kind": ["value-mismatch", "neg_loop", "uninit", "config-mismatch"],
+    "cause": RE(r"outer-extent-zero-on-failing-input|loop-lo-nonzero")},
    "seed loops/zero_trip: divide_with_recompute(j-loop, 'n / 2', 1, ['ro','ri']) with n = 1")
 kf("KF-inline-assign", ["C01", "C04"],
    "inline_assign deletes the assignment without checking that the target is a local buffer that is dead afterwards (argument targets, loop-carried values, windows, scalars passed to calls)",
@@ -189,7 +190,7 @@ kf("KF-window-arg-to-tensor-param", ["C15"],
 kf("KF-window-extent-unchecked", ["C03"],
    "accesses through a window are bounds-checked against the underlying buffer, not against the window's own declared extent (w = x[0:n-1]; w[n-1] is accepted)",
    "frontend/boundscheck.CheckBounds.translate_eff (window accesses are translated to the base buffer)",
-   {"kind": ["oob"], "family": ["FE2", "FE1"], "detail": RE(r"^(read|write) [wv]\[")},
+   {"kind": ["oob"], "family": ["FE2", "FE1", "FE6"], "detail": RE(r"^(read|write) (w|v|r|d|half)\[")},
    "w = x[0:n - 1]; w[n - 1] = 1.0 with x: f32[n]")
 for _ins, _what in [
     ("avx2_mask_storeu_ps", "mask is built with _mm256_set1_epi8((1<<N)-1): the sign bit of every 32-bit lane is 0 for N < 8, so nothing is stored"),
